@@ -16,7 +16,7 @@ func jsonMarshal(v any) ([]byte, error)    { return json.Marshal(v) }
 // See /verif/DESIGN.md section 3.
 var properties = map[string]*Property{
 	"C01": {
-		Rules:      []string{"R-HINT", "R-CTXTYPE", "R-TABLES", "R-CTX-MIRROR", "R-NAMECMP", "R-CTX-KEYS", "R-LIFECYCLE", "R-MODE-ORDER", "R-PAYLOAD-MIRROR"},
+		Rules:      []string{"R-HINT", "R-CTXTYPE", "R-TABLES", "R-CTX-MIRROR", "R-NAMECMP", "R-CTX-KEYS", "R-LIFECYCLE", "R-MODE-ORDER", "R-PAYLOAD-MIRROR", "R-CHUNK-STATE"},
 		Decided:    "the advisory size hint cannot steer which data is encoded (non-interference: hint-derived values reach no branch, loop bound, index or slice bound of the Writer data path); every context key is stored with the type every consumer asserts (no configuration accepted at construction can fail a type assertion at the first block); every codec name accepted at construction has a constructor case in every factory. Encode and decode tasks publish the same context keys (block size for the transform stage, post-transform size for the entropy stage) before creating their codecs. Every context key a codec constructor consults is published on the writing side and on both reading sides, so both build the same codec variant; an empty input still produces a framed stream (header before the empty-buffer return). In the block tasks the codecs are built from the task's transform/entropy type only after its last assignment.",
 		NotDecided: "byte equality of the round trip, codec correctness, buffer sizing, expansion bounds.",
 	},
@@ -71,8 +71,8 @@ var properties = map[string]*Property{
 		NotDecided: "mapping of block k to byte offsets; cursor compaction arithmetic.",
 	},
 	"C12": {
-		Rules:      []string{"R-FACTORY-PAIR", "R-WIRE", "R-PAYLOAD-MIRROR"},
-		Decided:    "for each entropy code the encoder and decoder factories build the same codec family with the same constant arguments and the same predictor constructor; shared constants of the entropy package keep their format-6 values. For the static-model codecs (Huffman, ANS, Range) encoder and decoder agree, for every number of symbols and order, on whether a chunk carries payload bits after its statistics header (finite decision table compared on both sides).",
+		Rules:      []string{"R-FACTORY-PAIR", "R-WIRE", "R-PAYLOAD-MIRROR", "R-CHUNK-STATE"},
+		Decided:    "for each entropy code the encoder and decoder factories build the same codec family with the same constant arguments and the same predictor constructor; shared constants of the entropy package keep their format-6 values. For the static-model codecs (Huffman, ANS, Range) encoder and decoder agree, for every number of symbols and order, on whether a chunk carries payload bits after its statistics header (finite decision table compared on both sides). Encoder and decoder carry the same coder state (values derived from receiver fields) across the chunk loop: what one side re-initialises per chunk the other does too.",
 		NotDecided: "arithmetic-coder exactness, bit-exact consumption.",
 	},
 	"C13": {
